@@ -388,21 +388,73 @@ example : (runLoop 3 (listIt [Val.int 5, Val.int 6]) .count).1 = .ok (Val.int (2
   count_spec [Val.int 5, Val.int 6]
 
 /-- `min` keeps the later of two values that are not `<`-ordered (ties go to the last element),
-`max` keeps the earlier one (ties go to the first) — `compare_values` as implemented -/
-theorem min_max_tie_break (a b : Val) (h : ltVal a b = .ok false) :
-    pickMin a b = .ok b ∧ pickMax a b = .ok a := by
-  simp [pickMin, pickMax, h, bind, Except.bind, pure, Except.pure]
+`max` keeps the earlier one (ties go to the first) — `compare_values` as implemented; the comparison
+is always `accumulated < new element`, in this operand order -/
+theorem min_max_tie_break (a b : Val) (h : (ltOp a b).2 = .ok false) :
+    (pickMin a b).2 = .ok b ∧ (pickMax a b).2 = .ok a := by
+  cases hl : ltOp a b with
+  | mk e r =>
+    rw [hl] at h
+    simp only at h
+    subst h
+    simp [pickMin, pickMax, hl]
 
-example : pickMin (Val.str [97]) (Val.str [97]) = .ok (Val.str [97]) :=
-  (min_max_tie_break _ _ (by simp [ltVal, bytesLt])).1
+example : (pickMin (Val.str [97]) (Val.str [97])).2 = .ok (Val.str [97]) :=
+  (min_max_tie_break _ _ (by simp [ltOp, ltVal, bytesLt])).1
 
 /-- `min` / `max` select by `<`: the strictly smaller value wins for `min`, the other for `max` -/
-theorem min_max_select (a b : Val) (h : ltVal a b = .ok true) :
-    pickMin a b = .ok a ∧ pickMax a b = .ok b := by
-  simp [pickMin, pickMax, h, bind, Except.bind, pure, Except.pure]
+theorem min_max_select (a b : Val) (h : (ltOp a b).2 = .ok true) :
+    (pickMin a b).2 = .ok a ∧ (pickMax a b).2 = .ok b := by
+  cases hl : ltOp a b with
+  | mk e r =>
+    rw [hl] at h
+    simp only at h
+    subst h
+    simp [pickMin, pickMax, hl]
 
-example : pickMin (Val.str [97]) (Val.str [98]) = .ok (Val.str [97]) :=
-  (min_max_select _ _ (by simp [ltVal, bytesLt])).1
+example : (pickMin (Val.str [97]) (Val.str [98])).2 = .ok (Val.str [97]) :=
+  (min_max_select _ _ (by simp [ltOp, ltVal, bytesLt])).1
+
+/-- the left fold of `+` from an initial value, stopping at the first error -/
+def sumFrom : Val → List Val → Ans
+  | acc, [] => .ok acc
+  | acc, x :: xs =>
+    match (addOp acc x).2 with
+    | .ok a => sumFrom a xs
+    | .error e => .error e
+
+/-- **sum_is_left_fold.** `sum` with any initial value is the left fold
+`((init + x₀) + x₁) + …` — the accumulator is always the *left* operand, which is what makes the
+result of non-commutative `+` (string / list / tuple concatenation, objects with `@+`) well defined;
+the fold stops at the first operand pair `+` is not defined for. `product` is the same with `*`. -/
+theorem sum_is_left_fold (init : Val) (xs : List Val) :
+    (runLoop (xs.length + 1) (listIt xs) (.sumInit init)).1 = sumFrom init xs := by
+  simp only [runLoop]
+  rw [foldIt_spec _ _ xs (xs.length + 1) (listIt xs) init (listIt_fwd xs) (Nat.lt_succ_self _)]
+  induction xs generalizing init with
+  | nil => rfl
+  | cons x xs ih =>
+    simp only [foldSpec, sumFrom]
+    cases h : addOp init x with
+    | mk e r =>
+      cases r with
+      | ok a => simp only; exact ih a
+      | error err => rfl
+
+/-- strings are concatenated in source order, after the initial value -/
+example : (runLoop 4 (listIt [Val.str [97], Val.str [98], Val.str [99]]) (.sumInit (Val.str [62]))).1
+    = .ok (Val.str [62, 97, 98, 99]) :=
+  sum_is_left_fold (Val.str [62]) [Val.str [97], Val.str [98], Val.str [99]]
+
+/-- an order-logging accumulator object sees `(acc, x)`, never `(x, acc)` -/
+example : (runLoop 3 (listIt [Val.int 1, Val.int 2]) (.sumInit (boxOf (Val.int 0)))).2.2
+    = [Ev.call tagAdd [Val.int 0, Val.int 1], Ev.call tagAdd [.tuple [Val.int 0, Val.int 1], Val.int 2]] := rfl
+
+/-- with the default initial value `sum` is the same fold from `0` -/
+theorem sum_default (xs : List Val) :
+    (runLoop (xs.length + 1) (listIt xs) .sum).1 = sumFrom (Val.int 0) xs := by
+  have := sum_is_left_fold (Val.int 0) xs
+  simpa [runLoop] using this
 
 example : (runLoop 3 (listIt [Val.int 5, Val.int 6]) .toList).1 = .ok (.list [Val.int 5, Val.int 6]) :=
   to_list_spec [Val.int 5, Val.int 6]
